@@ -65,7 +65,7 @@ func (r *run) outerLock(t int, st Step) func() {
 				r.s.log("ret t=%d v=%d", t, v)
 				return
 			}
-			th.ph, th.rctx, th.unlock, th.inside, th.toldAt, th.firstW = phHolding, rctx, cancel, true, 0, 0
+			th.ph, th.rctx, th.unlock, th.inside, th.toldAt, th.firstW, th.justified = phHolding, rctx, cancel, true, 0, 0, false
 			if r.wPending > 0 {
 				// admitted while a writer already waits: the launch of its graceful cancellation is no
 				// earlier than its admission, which is no earlier than its own call and the last writer unlock
@@ -78,8 +78,10 @@ func (r *run) outerLock(t int, st Step) func() {
 				}
 			}
 			// no reader is admitted while a writer holds (while running)
-			if w := r.occW[0].Load(); w != 0 && !r.shutdown {
-				r.viol = append(r.viol, violation{"outer-reader-during-writer", fmt.Sprintf("reader %d admitted while %d writer(s) hold the lock", t, w)})
+			// (a reader whose goroutine is scheduled late may see a writer that was granted after the
+			// grace period had already cancelled this reader's context: that reader has been told to stop)
+			if w := r.occW[0].Load(); w != 0 && !r.shutdown && rctx.Err() == nil {
+				r.viol = append(r.viol, violation{"outer-reader-during-writer", fmt.Sprintf("reader %d admitted with a live context while %d writer(s) hold the lock", t, w)})
 				r.abort.Store(true)
 			}
 			r.mu.Unlock()
@@ -113,7 +115,7 @@ func (r *run) outerLock(t int, st Step) func() {
 		r.mu.Lock()
 		r.logTicks(grantAt)
 		r.wPending--
-		if free && r.c.GraceMs >= 4 && grantAt-callAt >= time.Duration(r.c.GraceMs)*time.Millisecond*3/4 {
+		if free && r.c.GraceMs >= 15 && grantAt-callAt >= time.Duration(r.c.GraceMs)*time.Millisecond*3/4 {
 			r.viol = append(r.viol, violation{"outercancel-error-return-holds-reader", fmt.Sprintf("writer %d was granted only %v after its call (grace %dms) although no reader and no writer was outstanding: something a finished or failed acquisition left behind held it up", t, grantAt-callAt, r.c.GraceMs)})
 			r.abort.Store(true)
 		}
@@ -129,6 +131,7 @@ func (r *run) outerLock(t int, st Step) func() {
 				if u == t || !ot.inside {
 					continue
 				}
+				ot.justified = true // a writer was granted while this reader was inside: it may have been told to stop
 				if ot.rctx.Err() == nil {
 					r.viol = append(r.viol, violation{"outer-writer-with-live-reader", fmt.Sprintf("writer %d granted while reader %d is inside with a live context", t, u)})
 					r.abort.Store(true)
@@ -195,21 +198,30 @@ func (r *run) outerObserve() {
 		// run (an acquisition that reported an error holds nothing)
 		for try := 0; ; try++ {
 			reg := r.oc.VerifRegistered()
-			want := 0
+			// lo: readers inside with a live context (certainly registered); hi additionally counts
+			// readers inside whose context ended through their parent: rcancel may or may not have run
+			// for them since (a later cancel(cause) does not change the cause)
+			lo, hi := 0, 0
 			for _, th := range r.th {
-				if th.inside && th.ph == phHolding && th.rctx != nil && !(th.rctx.Err() != nil && context.Cause(th.rctx) == errOuter) {
-					want++
+				if th.inside && th.ph == phHolding && th.rctx != nil {
+					switch {
+					case th.rctx.Err() == nil:
+						lo++
+						hi++
+					case context.Cause(th.rctx) != errOuter:
+						hi++
+					}
 				}
 			}
-			if reg == want {
+			if lo <= reg && reg <= hi {
 				break
 			}
 			if try >= 3 {
 				id := "outer-registry-lost-reader"
-				if reg > want {
+				if reg > hi {
 					id = "outercancel-error-return-holds-reader"
 				}
-				r.viol = append(r.viol, violation{id, fmt.Sprintf("%d reader registration(s) in rcancels, but %d reader(s) hold the lock with a context that rcancel has not cancelled", reg, want)})
+				r.viol = append(r.viol, violation{id, fmt.Sprintf("%d reader registration(s) in rcancels, but between %d and %d reader(s) hold the lock with a context that rcancel has not cancelled", reg, lo, hi)})
 				r.abort.Store(true)
 				break
 			}
@@ -241,8 +253,8 @@ func (r *run) outerObserve() {
 				}
 			}
 			if !ok && !th.lockErr {
-				// a writer that was granted and already unlocked also justifies it
-				if r.hist["writer.granted"] == 0 {
+				// a writer that was granted while the reader was inside (and may have unlocked since) also justifies it
+				if !th.justified {
 					r.viol = append(r.viol, violation{"outer-spurious-cancel", fmt.Sprintf("reader %d cancelled with the configured cause at %v: no shutdown, no writer past its grace period", o.t, el)})
 					r.abort.Store(true)
 				}
